@@ -112,6 +112,12 @@ func (es *EventSystem) subscribe(sub *Subscription) (*Subscription, pubsub.Unsub
 				return nil, nil, err
 			}
 
+			// index the subscription, so that the topic is kept while it is in use
+			// when another subscription of the same topic is uninstalled
+			es.indexMux.Lock()
+			es.index[sub.typ][sub.id] = sub
+			es.indexMux.Unlock()
+
 			sub.eventCh = eventCh
 			return sub, unsubFn, nil
 		}
